@@ -37,6 +37,9 @@ type c10Case struct {
 	Audio     string `json:"audio,omitempty"`  // fMP4 audio codec: "" = aac, opus
 	VScale    int    `json:"vscale,omitempty"` // fMP4: timescale of the video track (default 90000)
 	Frames    int    `json:"frames,omitempty"` // video frames per one-second segment (default 4)
+	// Grow: a live stream that ends while it is played: the first answer to a playlist request lists all segments but
+	// the last and has no ENDLIST, the later ones list all of them and ENDLIST (VOD must be false)
+	Grow bool `json:"grow,omitempty"`
 }
 
 func c10IsVideo(kind string) bool {
@@ -101,7 +104,7 @@ func (c c10Case) String() string {
 	if c.Video != "" || c.Audio != "" {
 		return fmt.Sprintf("%s[%s] base=%d tracks=%s bframes=%v frags=%d range=%v pdt=%v vod=%v audiolead=%dms nseg=%d", c.Container, c.codecsAttr(), c.Base, c.Tracks, c.BFrames, c.Frags, c.Range, c.PDT, c.VOD, c.AudioLead, c.NSeg)
 	}
-	return fmt.Sprintf("%s base=%d tracks=%s bframes=%v frags=%d range=%v%s pdt=%v vod=%v audiolead=%dms nseg=%d", c.Container, c.Base, c.Tracks, c.BFrames, c.Frags, c.Range, map[bool]string{true: "(implicit offsets)"}[c.Implicit], c.PDT, c.VOD, c.AudioLead, c.NSeg)
+	return fmt.Sprintf("%s base=%d tracks=%s bframes=%v frags=%d range=%v%s pdt=%v vod=%v%s audiolead=%dms nseg=%d", c.Container, c.Base, c.Tracks, c.BFrames, c.Frags, c.Range, map[bool]string{true: "(implicit offsets)"}[c.Implicit], c.PDT, c.VOD, map[bool]string{true: " grows-then-ends"}[c.Grow], c.AudioLead, c.NSeg)
 }
 
 var c10T0 = time.Date(2022, 3, 4, 5, 6, 7, 250_000_000, time.FixedZone("", -3*3600))
@@ -336,11 +339,17 @@ func wrapTS(units []sUnit) []sUnit {
 	return out
 }
 
-func (st *c10Stream) playlist(ri int) string {
+func (st *c10Stream) playlist(ri int) string { return st.playlistAt(ri, 1<<30) }
+
+// playlistAt is the playlist of rendition ri as answered to the poll-th request for it (0-based).
+func (st *c10Stream) playlistAt(ri int, poll int) string {
 	r := st.rends[ri]
 	cs := st.cs
 	var segs []plSeg
 	for j, s := range r.segs {
+		if cs.Grow && poll == 0 && j == len(r.segs)-1 {
+			break
+		}
 		ps := plSeg{URI: fmt.Sprintf("r%d_seg%d", ri, j), DurNS: s.DurNS, DateTime: s.DateTime}
 		if cs.Range {
 			ps.URI = fmt.Sprintf("r%d_all", ri)
@@ -362,11 +371,12 @@ func (st *c10Stream) playlist(ri int) string {
 	if cs.VOD {
 		typ = "VOD"
 	}
-	return writeMediaPlaylist(7, 1, 0, typ, mapLine, segs, true, nil)
+	return writeMediaPlaylist(7, 1, 0, typ, mapLine, segs, !(cs.Grow && poll == 0), nil)
 }
 
 func (st *c10Stream) server() *stubServer {
 	srv := &stubServer{}
+	polls := map[int]int{}
 	srv.handler = func(n int, path, rawQuery string, req *http.Request) srvResp {
 		name := path[strings.LastIndexByte(path, '/')+1:]
 		if name == "index.m3u8" {
@@ -387,7 +397,11 @@ func (st *c10Stream) server() *stubServer {
 		case strings.HasSuffix(name, ".m3u8"):
 			fmt.Sscanf(name, "r%d.m3u8", &ri)
 			if ri < len(st.rends) {
-				return srvResp{Status: 200, Body: []byte(st.playlist(ri))}
+				srv.mu.Lock()
+				k := polls[ri]
+				polls[ri]++
+				srv.mu.Unlock()
+				return srvResp{Status: 200, Body: []byte(st.playlistAt(ri, k))}
 			}
 		case strings.HasSuffix(name, "_init"):
 			fmt.Sscanf(name, "r%d_init", &ri)
@@ -425,6 +439,9 @@ func (st *c10Stream) expect() []c10Exp {
 	firstSeg := 0
 	if !cs.VOD {
 		firstSeg = cs.NSeg - 3
+		if cs.Grow {
+			firstSeg = cs.NSeg - 4 // third from the end of the first playlist, which lacks the last segment
+		}
 	}
 	ts := cs.Container == "ts"
 	// leading track: the video track if any, else the first track, of the first (leading) playlist
@@ -679,6 +696,19 @@ func c10Cases(tier string) map[string][]c10Case {
 			for _, tracks := range []string{"v", "va", "v+a", "v+aa"} {
 				for _, bf := range []bool{false, true} {
 					out["fmp4 timescales"] = append(out["fmp4 timescales"], c10Case{Container: "fmp4", Base: base, Tracks: tracks, BFrames: bf, Frags: 1, PDT: true, VOD: true, NSeg: 3, VScale: vs})
+				}
+			}
+		}
+	}
+	// a live stream that ends while it is played (ENDLIST appears on a reload): every unit of every downloaded segment is delivered
+	for _, cont := range []string{"ts", "fmp4"} {
+		for _, tracks := range []string{"v", "va", "v+a"} {
+			if cont == "ts" && tracks == "v+a" {
+				continue
+			}
+			for _, nseg := range []int{4, 5, 6} {
+				for _, pdt := range []bool{false, true} {
+					out[cont+" live-ends"] = append(out[cont+" live-ends"], c10Case{Container: cont, Base: 540000, Tracks: tracks, Frags: 1, PDT: pdt, VOD: false, Grow: true, NSeg: nseg})
 				}
 			}
 		}
